@@ -33,6 +33,7 @@ package slicecache
 //@ spec func wtOpen(r *writethroughReader) bool = (r.file == nil && r.enc == nil && r.zw == nil) || (r.file != nil && r.enc != nil && r.zw != nil && r.file.fcloses == 0 && r.file.fdiscards == 0 && r.zw.zcloses == 0)
 
 //@ func slicecache.(*writethroughReader).Read (ctx, frame) (n, err)
+//@   may_panic   -- the upstream reader runs user code
 //@   requires r != nil && r.Reader != nil && wtOpen(r)
 //@   requires frame.len >= 0 && frame.len <= frame.cap
 //@   ensures  upstream-at-most-once: r.Reader.nreads <= old(r.Reader.nreads) + 1
